@@ -13,7 +13,9 @@ HARNESS = core/world core/sim_timer core/sim_resolver core/clock_interpose net/n
           broker/ref_codec broker/broker app/plan_json app/gen app/driver app/oracles app/shrink app/main
 OBJS = $(addprefix $(B)/,$(addsuffix .o,$(HARNESS))) $(B)/client_A.o $(B)/client_B.o
 
-all: $(B)/simc
+COMPS = $(B)/comp_rc_table $(B)/comp_pid_alloc $(B)/comp_async_mutex
+
+all: $(B)/simc $(COMPS)
 
 $(B)/simc: $(OBJS)
 	$(CXX) -o $@ $(OBJS) $(LDFLAGS)
@@ -26,7 +28,20 @@ $(B)/%.o: sim/%.cpp
 	@mkdir -p $(dir $@)
 	$(CXX) $(CXXFLAGS) -c $< -o $@
 
--include $(OBJS:.o=.d)
+# component checks: small stand-alone binaries over single headers of /repo
+$(B)/comp_rc_table: sim/comp/rc_table.cpp
+	@mkdir -p $(dir $@)
+	$(CXX) -std=c++17 -O1 -g1 -fsanitize=address -fno-weak -w -I$(REPO)/include -MMD -MP -MF $@.d -MT $@ $< -o $@
+
+$(B)/comp_pid_alloc: sim/comp/pid_alloc.cpp
+	@mkdir -p $(dir $@)
+	$(CXX) -std=c++17 -O1 -g1 $(SAN) -I$(REPO)/include -MMD -MP -MF $@.d -MT $@ $< -o $@
+
+$(B)/comp_async_mutex: sim/comp/async_mutex.cpp
+	@mkdir -p $(dir $@)
+	$(CXX) -std=c++17 -O1 -g1 $(SAN) -I$(REPO)/include -MMD -MP -MF $@.d -MT $@ $< -o $@ -pthread
+
+-include $(OBJS:.o=.d) $(COMPS:=.d)
 
 clean:
 	rm -rf $(B)
